@@ -83,9 +83,31 @@ def regen():
 # --------------------------------------------------------------------------------------
 # step 2: proofs
 # --------------------------------------------------------------------------------------
+def write_coqproject():
+    """_CoqProject = every .v under coq/ except Cases/ (generated cases). Returns True if it changed."""
+    files = []
+    for root, dirs, fs in os.walk(COQ):
+        dirs[:] = sorted(d for d in dirs if d not in ("Cases",) and not d.startswith("."))
+        for f in sorted(fs):
+            if f.endswith(".v"):
+                files.append(os.path.relpath(os.path.join(root, f), COQ))
+    content = ("-Q . PV\n-arg -w -arg -notation-overridden,-deprecated-hint-without-locality,"
+               "-deprecated-instance-without-locality,-deprecated-hint-rewrite-without-locality,-ambiguous-paths\n" + "\n".join(sorted(files)) + "\n")
+    path = os.path.join(COQ, "_CoqProject")
+    try:
+        if open(path).read() == content:
+            return False
+    except OSError:
+        pass
+    with open(path, "w") as f:
+        f.write(content)
+    return True
+
+
 def coq_make(clean=False):
     """Full .vo build of coq/ (incremental unless clean). Returns (ok, log)."""
-    if not os.path.exists(os.path.join(COQ, "Makefile")) or clean:
+    changed = write_coqproject()
+    if changed or clean or not os.path.exists(os.path.join(COQ, "Makefile")):
         rc, out, err = run(["coq_makefile", "-f", "_CoqProject", "-o", "Makefile"], cwd=COQ)
         if rc != 0:
             return False, err
@@ -402,12 +424,19 @@ def copt(x):
 # known findings, violations, evidence
 # --------------------------------------------------------------------------------------
 def load_known(prop):
-    path = os.path.join(VERIF, "known_findings.json")
-    try:
-        d = json.load(open(path))
-    except Exception:
-        return []
-    return [e for e in d.get("findings", []) if e.get("property") == prop and e.get("status", "open") == "open"]
+    """Open known findings for a property: known_findings.json plus known_findings.d/*.json."""
+    paths = [os.path.join(VERIF, "known_findings.json")]
+    kd = os.path.join(VERIF, "known_findings.d")
+    if os.path.isdir(kd):
+        paths += [os.path.join(kd, f) for f in sorted(os.listdir(kd)) if f.endswith(".json")]
+    res = []
+    for path in paths:
+        try:
+            d = json.load(open(path))
+        except Exception:
+            continue
+        res += [e for e in d.get("findings", []) if e.get("property") == prop and e.get("status", "open") == "open"]
+    return res
 
 
 class Check:
